@@ -15,7 +15,9 @@ ASSUME = ["every down_revision / depends_on names a revision that exists, ids ar
 RULE = ("quick: ALL 4096 digraphs on 4 revisions with down_revision edges only + ALL 4096 on 3 revisions where each "
         "ordered pair is none/down/dep/both + self-loop cases + seeded random graphs of 5-9 revisions (cyclic and acyclic); "
         "thorough adds a 120000 sample of the 2^20 5-revision down-only digraphs and 60000 4-revision graphs with "
-        "dependencies. non-trivial = the history has at least one edge; distinct by the encoded graph")
+        "dependencies. Every graph is loaded by the real code under three spellings of the ids (r0..rN; every id a proper prefix "
+        "of the later ones; every id a proper suffix of the earlier ones) and the answers must coincide (a string operation standing "
+        "where a tuple operation should). non-trivial = the history has at least one edge; distinct by the encoded graph")
 EXHAUSTIVE = {"quick": True, "thorough": True}
 CASE_TIMEOUT = 5
 
@@ -125,10 +127,21 @@ def search(tier, seed):
         yield rand_graph(rnd, n, rnd.choice([0.15, 0.3, 0.5]), rnd.choice([0, 0.15, 0.3]), acyclic=(k % 2 == 0))
 
 
-def run_case(g):
+# naming schemes of the revision ids: the graph (and the model) is the same, the strings differ.  Under "prefix" every id is
+# a proper prefix (hence a substring) of every later one, under "suffix" of every earlier one: a string operation that
+# stands where a tuple operation should (`x in down_revision` with a scalar down_revision, startswith, ...) shows up.
+NAMINGS = [
+    ("r", lambda i, n: "r%d" % i, lambda s, n: int(s[1:])),
+    ("prefix", lambda i, n: "a" * (i + 1), lambda s, n: len(s) - 1),
+    ("suffix", lambda i, n: "b" * (n - i), lambda s, n: n - len(s)),
+]
+
+
+def _load(g, name_, back_):
     from alembic.script import revision as R
-    name = lambda i: "r%d" % i
-    back = lambda s: int(s[1:])
+    n = len(g)
+    name = lambda i: name_(i, n)
+    back = lambda s: back_(s, n)
     tup = lambda xs: tuple(name(x) for x in xs) if xs else None
 
     def deps_of(r):
@@ -155,6 +168,22 @@ def run_case(g):
         out, cout = {"err": "CycleDetected"}, "LoadErr ECycle"
     except Exception as e:
         out, cout = {"err": "other:" + type(e).__name__}, "LoadErr EOther"
+    return out, cout
+
+
+def _canon(out):
+    return out["err"] if "err" in out else tuple((k, tuple(sorted(v))) for k, v in sorted(out["loaded"].items()))
+
+
+def run_case(g):
+    # the real loader under every naming scheme; the answer must not depend on the spelling of the ids: the first
+    # scheme whose answer differs from the plain one is the observation handed to the model comparison
+    results = [(nm,) + _load(g, f, b) for nm, f, b in NAMINGS]
+    naming, out, cout = results[0]
+    for nm, o, c in results[1:]:
+        if _canon(o) != _canon(out):
+            naming, out, cout = nm, dict(o, naming=nm), c
+            break
     edges = sum(len(r["down"]) + len(r["deps"]) for r in g)
     shape = "n%d-%s" % (len(g), "err" if "err" in out else "ok")
     def raw(r):
